@@ -68,7 +68,9 @@ def _chunk(arg):
             ast = glue_safe_ast(gen_story.generate(r.randrange(1 << 30), dict(features)))
             for p in ast["passages"]:
                 annotate(p["items"])
-            src = gen_story.print_story(ast)
+            # comments also on directive lines, at any depth (they are invisible: the AST sent to the model has none)
+            src = gen_story.print_story(ast, {"also": {"hook", "jump", "join", "endif", "py", "endpy", "render", "input", "ifhead", "forhead", "choice"},
+                                              "rng": rng_for(seed, "compile-cmt", label, idx)})
             try:
                 with quiet():
                     story = corr_play.compile_source(src)
@@ -143,7 +145,7 @@ def _unused():
 
 def compile_family(rep, n, nproc=16, features=None, label="c01-compile"):
     """features: generator features (default: the C01 mix); label: family name in the evidence"""
-    features = dict(FEATURES, **(features or {}))
+    features = dict(FEATURES, colon_conds=0.4, **(features or {}))
     chunk = max(1, n // (nproc * 2))
     idxs = list(range(n))
     outs = framework.pmap(_chunk, [(rep.seed, idxs[i:i + chunk], features, label) for i in range(0, n, chunk)], nproc)
